@@ -1,7 +1,7 @@
 #!/venv/bin/python
 """No-false-alarm self-test: apply each benign refactoring (benign/<props>_<name>.patch, where <props> is a
 '_'-separated list such as c14_c07) to a scratch worktree, run the named properties' quick checks against it
-and expect exit 0 (no VIOLATION).  Usage: tools/benign.py"""
+and expect exit 0 (no VIOLATION).  Usage: tools/benign.py [name-substring ...]"""
 import glob
 import os
 import re
@@ -17,6 +17,8 @@ def main():
     rows = []
     for patch in sorted(glob.glob(os.path.join(VERIF, "benign", "*.patch"))):
         name = os.path.basename(patch)[:-6]
+        if sys.argv[1:] and not any(a in name for a in sys.argv[1:]):
+            continue
         props = [p.upper() for p in re.findall(r"c\d\d", name.split("_" + name.split("_")[-1])[0]) or []]
         props = [p.upper() for p in name.split("_") if re.fullmatch(r"c\d\d", p)]
         wt = tempfile.mkdtemp(prefix="verif-ben-")
